@@ -17,7 +17,7 @@ CHECKS = {
  "C09": ("MC_Derive", "chain (both case modes, both orders) and get_subconverter (every prefix subset) over all pairs of base converters (incl. a later record bridging two earlier ones): union, grouping, priority, case-fold separation, restriction; TLAPS proofs (no bound) of the chain laws for one step of the fold; an Apalache inductive check of one chain step over UNBOUNDED strings"),
  "C10": ("MC_Derive + MC_Remap + MC_System", "frame condition as TLC action property (P_C10, and P_C10_sys for the steps that write and read files); after EVERY step the projection of EVERY live converter is compared with its previous one (all six derivations, follow-up merging adds on the derived converter, long tlc -simulate behaviours deriving from derived converters)"),
  "C11": ("MC_Remap", "every partial map over 4 names x every strict converter of <=2 records with <=1 synonym: documented errors, no prefix lost, URI side untouched"),
- "C12": ("MC_Derive", "every injective map (<=1 pair quick, <=2 thorough) for remap_uri_prefixes and rewire on one- and two-record converters; an Apalache check of the declarative statement over UNBOUNDED strings; rewire applied twice for idempotence"),
+ "C12": ("MC_Derive", "every injective map (<=1 pair quick, <=2 thorough) for remap_uri_prefixes and rewire on one- and two-record converters; a TLAPS proof of C12 for converters of any size (per-record laws, strictness of the result) bridged to the operational specification by a refinement property checked by TLC; an Apalache check of the declarative statement over UNBOUNDED strings; rewire applied twice for idempotence"),
  "C13": ("MC_Build", "every small prefix map / priority map / reverse map / JSON-LD context / non-bijective map for upgrade_prefix_map, all dictionary orders; loading via object, str path and Path"),
  "C14": ("MC_IO + MC_System", "C14 along histories (spec/System.tla: files as state, write and read as separate steps, the file a snapshot of the source; P_C14_sys / P_Snapshot checked by TLC, behaviours with real files -- converters built incrementally, merged, chained, remapped, then written, changed and read back; twin converters written one after the other -- validated event by event); every strict converter of <=2 records over hazard classes {plain, backslash, non-ASCII, space} with synonym and pattern, every format x flags, at the level of what the file denotes; the real writers/readers are run over hazard alphabets per format (EPM: arbitrary Unicode incl. control characters and quotes; JSON-LD; SHACL/TSV: printable without quote/angle brackets) and the read-back converter is compared with the predicted one"),
  "C16": ("MC_Bulk", "a TLAPS proof (tables of any length) of atomicity, result and fault position for the step machine that Bulk.tla instantiates; the file helper as a step machine (read+convert all rows, then write): every table <=2 (thorough 3) rows x cell pool x header x column x strict/passthrough/ambiguous, fault at each row position (reachability checked); recorded executions (one event per cell conversion with the file's bytes compared at that moment) must be behaviours of the machine; data-frame variants element-wise"),
